@@ -11,6 +11,40 @@ fn main() {
         std::process::exit(2);
     }
     let name = args[1].clone();
+    if args[2] == "--enum" {
+        // development smoke test (decides nothing): every string over the given alphabet up to N bytes
+        let n: usize = args[3].parse().unwrap();
+        let alphabet: Vec<String> = args[4].split(',').map(|h| String::from_utf8(CRATE::vrt::parse_vals(h)[0].clone()).unwrap()).collect();
+        let fixed = !name.ends_with("_all");
+        let mut work: Vec<String> = vec![String::new()];
+        let mut all: Vec<String> = vec![String::new()];
+        loop {
+            let mut next = Vec::new();
+            for w in &work { for a in &alphabet { let t = format!("{w}{a}"); if t.len() <= n { next.push(t); } } }
+            if next.is_empty() { break; }
+            all.extend(next.iter().cloned());
+            work = next;
+        }
+        let (mut ran, mut bad) = (0usize, 0usize);
+        panic::set_hook(Box::new(|_| {}));
+        for s in &all {
+            if fixed { let l: usize = name.rsplit("len").next().unwrap().parse().unwrap(); if s.len() != l { continue; } }
+            let mut vals: Vec<Vec<u8>> = s.bytes().map(|b| vec![b]).collect();
+            while vals.len() < n { vals.push(vec![0]); }
+            if !fixed { vals.push((s.len() as u64).to_le_bytes().to_vec()); }
+            for extra in &args[5..] { vals.extend(CRATE::vrt::parse_vals(extra)); }
+            let mut src = CRATE::vrt::ReplaySrc::new(vals);
+            let r = panic::catch_unwind(panic::AssertUnwindSafe(|| CRATE::dispatch(&name, &mut src)));
+            ran += 1;
+            let failed = r.is_err() || !src.failed.is_empty();
+            if failed && !src.assumption_violated {
+                bad += 1;
+                if bad <= 8 { println!("ENUM {name}: input {:?} -> {:?} panic={}", s, src.failed, r.is_err()); }
+            }
+        }
+        println!("ENUM {name}: {ran} inputs, {bad} failing");
+        std::process::exit(if bad > 0 { 1 } else { 0 });
+    }
     let vals = CRATE::vrt::parse_vals(&args[2]);
     let mut src = CRATE::vrt::ReplaySrc::new(vals);
     let r = panic::catch_unwind(panic::AssertUnwindSafe(|| CRATE::dispatch(&name, &mut src)));
